@@ -825,6 +825,38 @@ func exhaustiveDistance(ev *Ev, codec string, w int, maxW int, w5 int) {
 	// only part of the remainder, or accepts a second constant, shows up here even
 	// though the remainder function itself is unchanged)
 	extra := acceptedDifferences(ev, codec)
+	// bech32 in upper case: a decoder that computes the checksum over the prefix AS WRITTEN (instead of its
+	// lower-case form) works on another coset for upper-case strings; the difference depends on prefix and
+	// length, so it is computed for exactly the window used below and offered to the decoder
+	upperOnly := map[uint64]bool{}
+	if codec == "bech32" {
+		data := make([]byte, w-6)
+		for i := range data {
+			data[i] = byte((i*7 + 3) % 32)
+		}
+		valid := refBech32Encode("a", data)
+		vals := append([]byte{}, data...)
+		vals = append(vals, refBech32Checksum("a", data)...)
+		d := uint64(refBech32Polymod(append(refBech32HrpExpand("A"), vals...)) ^ 1)
+		up := []byte(asciiUpper(valid))
+		for j := 0; j < 6; j++ {
+			v := int(d >> uint(5*j) & 31)
+			pos := len(up) - 1 - j
+			up[pos] = asciiUpper(string(b32Charset[symbolOf(up[pos])^v]))[0]
+		}
+		if d != 0 && c03ImplAccepts(codec, string(up)) && !c03RefAccepts(codec, string(up)) {
+			extra = append(extra, d)
+			upperOnly[d] = true
+			ev.Note("bech32 decoder accepts an upper-case string whose checksum is valid for the prefix as written (%q), difference %#x", string(up), d)
+		}
+	}
+	witnessFor := func(d uint64, e []byte) c03Witness {
+		wit := witnessFromError(codec, w, e)
+		if upperOnly[d] {
+			wit.Valid, wit.Corrupted = asciiUpper(wit.Valid), asciiUpper(wit.Corrupted)
+		}
+		return wit
+	}
 	targets := append([]uint64{0}, extra...)
 	tab := syndromeTable(codec, w)
 	// sanity: table entries are GF(2)-linear in the value bits (cheap, complete)
@@ -891,13 +923,13 @@ func exhaustiveDistance(ev *Ev, codec string, w int, maxW int, w5 int) {
 			}
 		}
 		if len(pv)/2 <= maxW {
-			kC03Witness.One(ev, witnessFromError(codec, w, errVector(w, pv...)))
+			kC03Witness.One(ev, witnessFor(d, errVector(w, pv...)))
 			ev.Note("%s: decoder accepts a remainder that differs by %#x from the valid one (%d checksum symbols)", codec, d, len(pv)/2)
 			return
 		}
 		if i := lookupT2(d); i >= 0 {
 			a1, b1, a2, b2 := unpackPat(t2[i].p)
-			kC03Witness.One(ev, witnessFromError(codec, w, errVector(w, a1, b1, a2, b2)))
+			kC03Witness.One(ev, witnessFor(d, errVector(w, a1, b1, a2, b2)))
 			ev.Note("%s: accepted remainder difference %#x is the syndrome of a pattern of weight <=2", codec, d)
 			return
 		}
@@ -905,7 +937,7 @@ func exhaustiveDistance(ev *Ev, codec string, w int, maxW int, w5 int) {
 			if j := lookupT2(t2[i].s ^ d); j >= 0 {
 				a1, b1, a2, b2 := unpackPat(t2[i].p)
 				c1, d1, c2, d2 := unpackPat(t2[j].p)
-				kC03Witness.One(ev, witnessFromError(codec, w, errVector(w, a1, b1, a2, b2, c1, d1, c2, d2)))
+				kC03Witness.One(ev, witnessFor(d, errVector(w, a1, b1, a2, b2, c1, d1, c2, d2)))
 				ev.Note("%s: accepted remainder difference %#x is the syndrome of a pattern of weight <=4", codec, d)
 				return
 			}
